@@ -14,7 +14,9 @@ EXPLANATION = (
     "iterate snapshots); every failure of handleRequest ends the connection (handlers leave the loop / return falsy and cover "
     "Exception; communication and security errors are re-raised by Daemon.handleRequest); SocketConnection.close drops the "
     "session instances, closes every tracked resource under its own suppression and then clears the set, never propagates a "
-    "socket error, and returns early only for keep_open. Not decided: counts observed at run time, byte offsets."
+    "socket error, and returns early only for keep_open."
+    'Also decided: close() really closes the socket; tracked resources are per connection. '
+    "Not decided: counts observed at run time, byte offsets."
 )
 
 CD = "Pyro5.server.Daemon._clientDisconnect"
@@ -126,11 +128,18 @@ def run(ctx, R, tier):
             why = "the hook is not given the connection that ended"
     R.check(ok, "C13-R3", "_clientDisconnect|hook-exactly-once", "the user hook is called exactly once, with the connection, on every path", d.loc(), why)
     for fn in (d, ctx.fn("Pyro5.server.Daemon._housekeeping")):
-        loops = [n for n in walk_no_nested(fn.node) if isinstance(n, ast.For) and "streaming_responses" in unparse(n.iter)]
+        def edits_table(lp_):
+            return any(isinstance(x, (ast.Delete, ast.Assign)) and any(isinstance(t, ast.Subscript) and "streaming_responses" in unparse(t.value)
+                                                                      for t in (x.targets if hasattr(x, "targets") else [])) for x in ast.walk(lp_))
+        loops = [n for n in walk_no_nested(fn.node) if isinstance(n, ast.For) and ("streaming_responses" in unparse(n.iter) or edits_table(n))]
         if not loops:
             raise AnalysisError("%s: loops over streaming_responses vanished" % fn.qualname)
         for i, lp in enumerate(loops):
             it = lp.iter
+            if isinstance(it, ast.Name):
+                # a local that holds the snapshot
+                vals = [st.value for st, t, k in stores_in(fn.node) if k == "assign" and isinstance(t, ast.Name) and t.id == it.id]
+                it = vals[0] if len(vals) == 1 else it
             snap = isinstance(it, ast.Call) and isinstance(it.func, ast.Name) and it.func.id in ("list", "tuple", "sorted")
             mutates = any(isinstance(x, (ast.Delete, ast.Assign)) and any(isinstance(t, ast.Subscript) and "streaming_responses" in unparse(t.value)
                                                                          for t in (x.targets if hasattr(x, "targets") else []))
